@@ -20,7 +20,7 @@ BOUNDED (labelled, never counted as proved): the round trip  plan.call(f, *args,
 import itertools
 
 from ujvc.core import EngineSignal, Unsupported
-from ujvc.units import get, unit, user_value
+from ujvc.units import base_env, get, unit, user_value
 from ujvc.vc import VC, IntS, SInt
 from ujvc.z3env import z3
 
@@ -52,6 +52,74 @@ def keys_unit(ctx):
     ctx.check("KeywordArg(n,i)==KeywordArg(n,j)<=>i==j", (i == j) if bool(r2) else (i != j))
     ctx.check("KeywordArg-with-different-names-differ;equal-keys-hash-equally",
               bool(not (K("a", 1) == K("b", 1)) and hash(K("a", 1)) == hash(K("a", 1)) and hash(P(3)) == hash(P(3))))
+
+
+@unit("plumbing.edge-key-hashes", props=["C02", "C09"], functions=[(GR, "Dependency.__hash__"), (GR, "PositionalArg.__hash__"), (GR, "KeywordArg.__hash__")],
+      assumptions=["builtin hash is a FUNCTION of the value (equal ints / strings / tuples of equal items hash equally): modelled by uninterpreted functions; "
+                   "hash of anything that is not built from the key's own fields (id(self), a counter, ...) is an unconstrained integer"],
+      min_obligations=3)
+def key_hashes_unit(ctx):
+    """The hash law for the edge keys, for ALL indices and names: keys that are equal (same class, same index, same name - the relation proved for
+    __eq__ in plumbing.edge-keys) have equal hashes.  networkx keeps the parallel edges of a MultiDiGraph in a dict indexed by these keys:
+    remove_edge(u, v, key) and has_edge(u, v, key) in the value-store rewrite and the duplicate test in add_edge find an edge only through an EQUAL
+    key with an EQUAL hash."""
+    from ujvc.vc import SVal
+
+    Hint = z3.Function("hash!int", IntS, IntS)
+    Hname = z3.Function("hash!name", M.Name, IntS)
+    Hpair = z3.Function("hash!tuple2", IntS, IntS, IntS)
+    Hcls = {}
+
+    def h(x):
+        if isinstance(x, SInt):
+            return Hint(x.t)
+        if isinstance(x, bool) or x is None:
+            raise Unsupported("hash of a bool / None in an edge key")
+        if isinstance(x, int):
+            return Hint(z3.IntVal(x))
+        if isinstance(x, SVal) and x.t.sort() == M.Name:
+            return Hname(x.t)
+        if isinstance(x, tuple) and len(x) == 2:
+            return Hpair(h(x[0]), h(x[1]))
+        if isinstance(x, tuple) and len(x) == 3:
+            return Hpair(h(x[0]), Hpair(h(x[1]), h(x[2])))
+        if isinstance(x, type):
+            return Hcls.setdefault(x, ctx.fresh(IntS, "hash!class"))
+        if isinstance(x, str):
+            return Hcls.setdefault(("str", x), ctx.fresh(IntS, "hash!str"))
+        return ctx.fresh(IntS, "hash!of-something-that-is-not-a-field-of-the-key")     # id(self), object(), a counter ...
+
+    def _hash(x):
+        return SInt(ctx, h(x))
+
+    env = base_env(GR)
+    env.update({"hash": _hash, "id": lambda o: SInt(ctx, ctx.fresh(IntS, "id")), "type": type})
+    cls = real_classes()
+
+    def hv(r):
+        if isinstance(r, SInt):
+            return r.t
+        if isinstance(r, int) and not isinstance(r, bool):
+            return z3.IntVal(r)
+        raise Unsupported(f"__hash__ returned {type(r).__name__}")
+
+    which = ctx.choose(3, "key-class")
+    if which == 0:
+        f = get(GR, "Dependency.__hash__").compile_into(env)
+        a, b = cls["Dependency"](), cls["Dependency"]()
+        ctx.check("Dependency:all-plain-dependencies-hash-equally", hv(f(a)) == hv(f(b)))
+        return "dep"
+    i, j = ctx.fresh(IntS, "i"), ctx.fresh(IntS, "j")
+    if which == 1:
+        f = get(GR, "PositionalArg.__hash__").compile_into(env)
+        a, b = cls["PositionalArg"](SInt(ctx, i)), cls["PositionalArg"](SInt(ctx, j))
+        ctx.check("PositionalArg:equal-index=>equal-hash", z3.Implies(i == j, hv(f(a)) == hv(f(b))))
+        return "pos"
+    n, m = ctx.fresh(M.Name, "n"), ctx.fresh(M.Name, "m")
+    f = get(GR, "KeywordArg.__hash__").compile_into(env)
+    a, b = cls["KeywordArg"](SVal(ctx, n), SInt(ctx, i)), cls["KeywordArg"](SVal(ctx, m), SInt(ctx, j))
+    ctx.check("KeywordArg:equal-name-and-index=>equal-hash", z3.Implies(z3.And(i == j, n == m), hv(f(a)) == hv(f(b))))
+    return "kw"
 
 
 class BindingGraph(M.MGraph):
